@@ -32,6 +32,7 @@ OBLIGATIONS = {
     "file_over_default": "a config-file value different from the default with no explicit option", "junk_key": "a config file with an undefined key",
     "option_before_subcommand": "a base-parser option that the subcommand does not redeclare, typed before the subcommand",
     "subcommand_redeclares_option": "key/pubkey --output-format (declared by the subcommand itself, with the extra pem choice) covered",
+    "config_directory_changed_between_runs": "several runs of one process on one configuration directory whose files changed in between",
     "fragmented_stdin": "a main() run whose standard input delivers fewer bytes per read than asked",
     "long_digit_string": "a hex / binary digit string of 4095 .. 2M digits (whole and partial bytes) was converted",
     "empty_input": "empty input converted", "odd_nibbles": "hex input with an odd number of digits", "bits_not_multiple_of_8": "binary input "
@@ -136,22 +137,38 @@ class DribbleIn(io.BufferedIOBase):
         return len(d)
 
 
-def run_main(argv, stdin=b"", files=None, mode="config", toml_support=True, dribble=None):
-    """one in-process main() run. files: {"toml": dict|None, "json": dict|None}. Returns observation dict."""
+def run_main(argv, stdin=b"", files=None, mode="config", toml_support=True, dribble=None, keep_dir=None):
+    """one in-process main() run. files: {"toml": dict|None, "json": dict|None}. Returns observation dict.
+    keep_dir: a configuration directory that persists between runs - only files whose content changes are rewritten, files
+    that stay the same are left untouched (same inode, same times), files no longer wanted are deleted."""
     import bits
     import bits.__main__ as bm
     import bits.rpc
-    cdir = os.path.join(scratch_dir(), "c20-conf")
-    shutil.rmtree(cdir, ignore_errors=True)
-    os.makedirs(cdir)
     files = files or {}
+    want = {}
     if files.get("toml") is not None:
-        with open(os.path.join(cdir, "config.toml"), "w", encoding="utf-8") as f:
-            for k, v in files["toml"].items():
-                f.write(f"{k} = {json.dumps(v, ensure_ascii=False)}\n")
+        want["config.toml"] = "".join(f"{k} = {json.dumps(v, ensure_ascii=False)}\n" for k, v in files["toml"].items())
     if files.get("json") is not None:
-        with open(os.path.join(cdir, "config.json"), "w", encoding="utf-8") as f:
-            json.dump(files["json"], f, ensure_ascii=False)
+        want["config.json"] = json.dumps(files["json"], ensure_ascii=False)
+    if keep_dir:
+        cdir = keep_dir
+        os.makedirs(cdir, exist_ok=True)
+        for nm in ("config.toml", "config.json"):
+            p_ = os.path.join(cdir, nm)
+            have = open(p_, encoding="utf-8").read() if os.path.exists(p_) else None
+            if nm not in want:
+                if have is not None:
+                    os.unlink(p_)
+            elif have != want[nm]:
+                with open(p_, "w", encoding="utf-8") as f:
+                    f.write(want[nm])
+    else:
+        cdir = os.path.join(scratch_dir(), "c20-conf")
+        shutil.rmtree(cdir, ignore_errors=True)
+        os.makedirs(cdir)
+        for nm, text in want.items():
+            with open(os.path.join(cdir, nm), "w", encoding="utf-8") as f:
+                f.write(text)
     # file times are an environment answer the harness owns: every configuration file (and the directory) carries the same
     # fixed modification time, so two runs whose files differ only in content of equal size are indistinguishable by stat()
     for nm in ("config.toml", "config.json", ""):
@@ -443,6 +460,28 @@ def chk_conv(case):
     return out
 
 
+def chk_evolve(case):
+    """ONE process, ONE configuration directory, several runs: between the runs files appear, disappear or change while the others
+    are left untouched (a configuration file edited or added while a long-lived embedding process keeps calling main()).  Each
+    run is judged by the precedence rule on the files as they are at that moment."""
+    sub, dest, opt = case["sub"], case["dest"], case["opt"]
+    cdir = os.path.join(scratch_dir(), "c20-evolve", case["dirname"])
+    shutil.rmtree(cdir, ignore_errors=True)
+    out = []
+    for i, st in enumerate(case["states"]):
+        argv = ([sub] if sub else []) + list(case["pos"])
+        obs = run_main(argv, files={"toml": st.get("toml"), "json": st.get("json")}, mode="config", keep_dir=cdir)
+        exp = expected_value(dest, None, st.get("toml"), st.get("json"))
+        got = (obs["config"] or {}).get(dest, "<no config>")
+        if norm(dest, got) != norm(dest, exp):
+            out.append((f"C20/precedence/{sub or 'base'}/{dest}/directory-changed-between-runs",
+                        f"run #{i + 1} of {len(case['states'])} in one process on one configuration directory: files now {st}, earlier {case['states'][:i]}: "
+                        f"{dest} = {got!r}, expected {exp!r}"))
+            break
+    shutil.rmtree(cdir, ignore_errors=True)
+    return out
+
+
 def chk_usage(case):
     """a run that argparse itself ends (usage error, --help, unreadable --in-file) AFTER explicit options were given: no oracle
     of its own - it is history for the runs that follow in the same process"""
@@ -450,7 +489,7 @@ def chk_usage(case):
     return []
 
 
-CASES = {"prec": chk_prec, "behaviour": chk_behaviour, "conv": chk_conv, "usage": chk_usage}
+CASES = {"prec": chk_prec, "behaviour": chk_behaviour, "conv": chk_conv, "usage": chk_usage, "evolve": chk_evolve}
 
 
 CASES_EXTRA = {"cross": chk_cross}
@@ -472,7 +511,10 @@ def seq_ops(job):
                            (None, "log_level", "--log-level")):
         v = ALPHA[dest]
         for node in ({"cli": v[0], "toml": {dest: v[1]}, "json": None}, {"cli": None, "toml": None, "json": {dest: v[1]}},
-                     {"cli": None, "toml": None, "json": None}):
+                     {"cli": None, "toml": None, "json": None},
+                     # the configuration directory changes between runs of one process: a TOML file appears next to the JSON file
+                     # (TOML must win), the JSON file is replaced by a TOML file
+                     {"cli": None, "toml": {dest: v[2 % len(v)]}, "json": {dest: v[1]}}, {"cli": None, "toml": {dest: v[0]}, "json": None}):
             ops.append(("prec", {"sub": sub, "dest": dest, "opt": opt, "pos": [], **node}))
     ops.append(("conv", {"mode": "main", "data": "00ff", "out": "bin", "in": "hex"}))
     ops.append(("conv", {"mode": "roundtrip", "data": "", "out": "hex", "in": "bin"}))
@@ -524,6 +566,7 @@ def jobs(tier, seed):
     js += [{"name": f"conv/{sh}", "part": "conv", "shard": [sh, 8], "weight": 6} for sh in range(8)]
     from vf.runner import seq_jobs
     js += seq_jobs(4, weight=4)
+    js.append({"name": "evolve", "part": "evolve", "shard": [0, 1], "weight": 5})
     return js
 
 
@@ -674,6 +717,26 @@ def run_job(job):
                     acc.check("behaviour", case, chk_behaviour)
                     if acc.evaluations % 200 == 1:
                         acc.sample({"sub": sub, "layers": case["layers"], "toml": te, "json": je})
+    elif part == "evolve":
+        # every sequence of <= 3 directory states over {no file, JSON, TOML, both, JSON with another value} for three options
+        n = 0
+        for sub, dest, opt in ((None, "output_format", "--output-format"), ("addr", "network", "--network"), (None, "log_level", "--log-level")):
+            v = ALPHA[dest]
+            states = [{}, {"json": {dest: v[1]}}, {"toml": {dest: v[2 % len(v)]}}, {"toml": {dest: v[2 % len(v)]}, "json": {dest: v[1]}},
+                      {"json": {dest: v[0]}}, {"toml": {dest: v[1]}, "json": {dest: v[1]}}]
+            for k in (2, 3):
+                for seq in itertools.product(range(len(states)), repeat=k):
+                    if any(a == b for a, b in zip(seq, seq[1:])):
+                        continue
+                    n += 1
+                    acc.evaluations += k
+                    acc.executions += 1
+                    acc.states += k
+                    acc.transitions += k - 1
+                    acc.nontrivial += 1
+                    acc.ob("config_directory_changed_between_runs")
+                    acc.check("evolve", {"sub": sub, "dest": dest, "opt": opt, "pos": [], "states": [states[i] for i in seq], "dirname": f"d{n % 7}"}, chk_evolve)
+        acc.sample({"evolve": "3 options x all sequences of 2-3 distinct successive directory states over 6 states"})
     elif part == "conv":
         fmts = ["raw", "hex", "bin"]
         i = 0
